@@ -148,6 +148,7 @@ type oblResult struct {
 	allStats map[string]string
 	outside  *oblResult
 	preRun   bool // decided statically, no SMT query
+	retried  bool // undecided in the first solver stage, decided by the retry stage
 }
 
 type knownFinding struct {
@@ -228,10 +229,12 @@ func runObligations(cfg runCfg, items []*oblResult) {
 			}
 			r := solve.Run(fn, to, cfg.seed, "", false)
 			if r.Status != "sat" && r.Status != "unsat" && !it.obl.ExpectSat {
-				// one retry with doubled timeout and all solvers at once
-				r2 := solve.Run(fn, 2*cfg.timeout, cfg.seed+1, "", true)
+				// one retry with doubled timeout: every strategy at once, the z3-new strategies
+				// restarted under two further fixed seeds each (see solve.seedFor)
+				r2 := solve.RunRestarts(fn, 2*cfg.timeout, cfg.seed, "", true, []int{1, 2})
 				if r2.Status == "sat" || r2.Status == "unsat" {
 					r = r2
+					it.retried = true
 				}
 			}
 			it.Status, it.Solver, it.TimeS, it.output, it.allStats = r.Status, r.Solver, r.Time, r.Output, r.All
@@ -262,7 +265,7 @@ func runObligations(cfg runCfg, items []*oblResult) {
 					}
 				}
 			}
-			if it.ok {
+			if it.ok && os.Getenv("GOCV_KEEP") == "" { // GOCV_KEEP: development aid (determinism audit of the generated queries)
 				os.Remove(fn)
 				it.File = ""
 			}
@@ -453,6 +456,13 @@ func cmdCheck(args []string) int {
 		failed = append(failed, it)
 	}
 	sort.Slice(failed, func(i, j int) bool { return failed[i].Name < failed[j].Name })
+	if os.Getenv("GOCV_VERBOSE") == "2" { // development aid: every obligation that needed more than a second
+		for _, it := range items {
+			if it.TimeS > 1 || it.retried {
+				fmt.Fprintf(os.Stderr, "SLOW %-70s %-8s %-20s %6.2fs retried=%v %v\n", it.Name, it.Status, it.Solver, it.TimeS, it.retried, it.allStats)
+			}
+		}
+	}
 	if os.Getenv("GOCV_VERBOSE") != "" {
 		for _, it := range failed {
 			fmt.Fprintf(os.Stderr, "FAIL %-70s %-8s %6.2fs %s @%s\n", it.Name, it.Status, it.TimeS, trunc(it.Src, 80), it.Where)
@@ -605,8 +615,15 @@ func writeEvidence(path, prop, tier string, seed int, start time.Time, items []*
 		"samples": samples, "known_findings_hit": knownHit, "not_proved": notProved, "vacuity_probes_sat": covers, "vacuity_probes_inconclusive": coversInconclusive,
 		"integer_semantics": "mathematical integers with exact machine wrap-around per Go type (no bit-vectors)",
 	}
+	retried := []string{}
+	for _, it := range items {
+		if it.retried {
+			retried = append(retried, it.Name)
+		}
+	}
+	cov["decided_only_by_retry_stage"] = retried // obligations the first solver stage left undecided (fragile proofs)
 	if slowest != nil {
-		cov["slowest"] = map[string]any{"obligation": slowest.Name, "time_s": round3(slowest.TimeS)}
+		cov["slowest"] =map[string]any{"obligation": slowest.Name, "time_s": round3(slowest.TimeS)}
 	}
 	if total == 0 || ok == 0 {
 		level = "other"
